@@ -1606,3 +1606,125 @@ M("c17-listbuckets-unfiltered", ["C17"], {"C17": ["R17.3"]}, "backend/s3afero/mu
 			continue
 		}
 """)
+
+# ---------------------------------------------------------------- C16
+REVERT("f24-revert-location-follows-request", ["C16"], {"C16": ["R16.6"]}, "0018-fix-CompleteMultipartUpload-Location-follows-how-the.patch")
+
+M("c16-base-mw-drops-single-label-test", ["C16"], {"C16": ["R16.7"]}, "gofakes3.go",
+  """			bucket = host[:len(host)-len(base)]
+			if idx := strings.IndexByte(bucket, '.'); idx >= 0 {
+				continue
+			}
+			return bucket, true""", """			bucket = host[:len(host)-len(base)]
+			return bucket, true""")
+
+M("c16-rewrite-cleans-path", ["C16"], {"C16": ["R16.3"]}, "gofakes3.go",
+  """		parts := strings.SplitN(rq.Host, ".", 2)
+		bucket := parts[0]
+
+		p := rq.URL.Path
+		rq.URL.Path = "/" + bucket
+		if p != "/" {
+			rq.URL.Path += p
+		}""", """		parts := strings.SplitN(rq.Host, ".", 2)
+		bucket := parts[0]
+
+		p := rq.URL.Path
+		rq.URL.Path = "/" + bucket
+		if p != "/" {
+			rq.URL.Path += "/" + strings.TrimLeft(p, "/")
+		}""")
+
+M("c16-bucket-from-forwarded-host", ["C16"], {"C16": ["R16.3"]}, "gofakes3.go",
+  """		parts := strings.SplitN(rq.Host, ".", 2)
+		bucket := parts[0]
+""", """		host := rq.Host
+		if fwd := rq.Header.Get("X-Forwarded-Host"); fwd != "" {
+			host = fwd
+		}
+		parts := strings.SplitN(host, ".", 2)
+		bucket := parts[0]
+""")
+
+M("c16-mw-rewrites-rawquery", ["C16"], {"C16": ["R16.2"]}, "gofakes3.go",
+  """		g.log.Print(LogInfo, p, "=>", rq.URL)
+
+		handler.ServeHTTP(w, withHostBucket(rq))
+	})
+}
+
+// hostBucketCtxKey""", """		g.log.Print(LogInfo, p, "=>", rq.URL)
+		rq.URL.RawQuery = strings.TrimSuffix(rq.URL.RawQuery, "&")
+
+		handler.ServeHTTP(w, withHostBucket(rq))
+	})
+}
+
+// hostBucketCtxKey""")
+
+M("c16-routebase-trimleft-only", ["C16"], {"C16": ["R16.5"]}, "routing.go",
+  """		path   = strings.Trim(r.URL.Path, "/")""", """		path   = strings.TrimLeft(r.URL.Path, "/")""")
+
+M("c16-handler-reads-hostbucket", ["C16"], {"C16": ["R16.4"]}, "gofakes3.go",
+  """func (g *GoFakeS3) listBuckets(w http.ResponseWriter, r *http.Request) error {
+""", """func (g *GoFakeS3) listBuckets(w http.ResponseWriter, r *http.Request) error {
+	if g.hostBucket {
+		return ErrNotImplemented
+	}
+""")
+
+M("c16-handler-rereads-path", ["C16"], {"C16": ["R16.4"]}, "gofakes3.go",
+  """func (g *GoFakeS3) headObject(
+	bucket, object string,
+	versionID VersionID,
+	w http.ResponseWriter,
+	r *http.Request,
+) error {
+""", """func (g *GoFakeS3) headObject(
+	bucket, object string,
+	versionID VersionID,
+	w http.ResponseWriter,
+	r *http.Request,
+) error {
+	if strings.HasSuffix(r.URL.Path, "/") {
+		object += "/"
+	}
+""")
+
+M("c16-server-swaps-option-tests", ["C16"], {"C16": ["R16.1"]}, "gofakes3.go",
+  """	if len(g.hostBucketBases) > 0 {
+		handler = g.hostBucketBaseMiddleware(handler)
+	} else if g.hostBucket {
+		handler = g.hostBucketMiddleware(handler)
+	}""", """	if g.hostBucket {
+		handler = g.hostBucketBaseMiddleware(handler)
+	} else if len(g.hostBucketBases) > 0 {
+		handler = g.hostBucketMiddleware(handler)
+	}""")
+
+M("c16-base-fallback-rewrites-anyway", ["C16"], {"C16": ["R16.2"]}, "gofakes3.go",
+  """		bucket, ok := matchBucket(rq.Host)
+		if !ok {
+			handler.ServeHTTP(w, rq)
+			return
+		}
+		p := rq.URL.Path""", """		bucket, ok := matchBucket(rq.Host)
+		if !ok {
+			bucket = strings.SplitN(rq.Host, ".", 2)[0]
+		}
+		p := rq.URL.Path""")
+
+M("c16-unmarked-forward-after-rewrite", ["C16"], {"C16": ["R16.6"]}, "gofakes3.go",
+  """		g.log.Print(LogInfo, p, "=>", rq.URL)
+
+		handler.ServeHTTP(w, withHostBucket(rq))
+	})
+}
+
+func (g *GoFakeS3) httpError""", """		g.log.Print(LogInfo, p, "=>", rq.URL)
+
+		handler.ServeHTTP(w, rq)
+	})
+}
+
+func (g *GoFakeS3) httpError""")
